@@ -100,9 +100,10 @@ STD4 = ["one", "length", "dict", "attr"]
 # single target, the whole component and every vertex set are asked in each of them); minor = weight modes in which
 # the proper multi-target subsets of shortest_path are asked too; export = weight modes in which
 # export_path_mesh=True is run as well (False is always run; no_vset_export: not for shortest_path_to_vertex_set)
-PLAN_FULL = {"p2p_sub": 3, "vset_sub": 3, "p2p_1": ["int", "list", "set", "tuple", "frozenset", "list_dup"],
-             "p2p_k": ["list", "rlist", "set", "tuple"], "vset_1": ["list", "set", "tuple", "frozenset", "list_dup"],
-             "vset_k": ["list", "rlist", "set", "tuple"], "modes": ALL5, "minor": ALL5, "export": ["length", "attr_dense"]}
+# "gen" = a one-shot generator, "npint" = a list of numpy integers, "nparr" = a numpy integer array
+PLAN_FULL = {"p2p_sub": 3, "vset_sub": 3, "p2p_1": ["int", "list", "set", "tuple", "frozenset", "list_dup", "gen", "npint"],
+             "p2p_k": ["list", "rlist", "set", "tuple", "gen", "npint", "nparr"], "vset_1": ["list", "set", "tuple", "frozenset", "list_dup", "gen"],
+             "vset_k": ["list", "rlist", "set", "tuple", "gen", "npint"], "modes": ALL5, "minor": ALL5, "export": ["length", "attr_dense"]}
 PLAN_MID = {"p2p_sub": 3, "vset_sub": 3, "p2p_1": ["int", "list", "set"], "p2p_k": ["list", "set"],
             "vset_1": ["list", "set"], "vset_k": ["list", "set"], "modes": STD4, "minor": STD4, "export": ["length"]}
 PLAN_LIGHT = {"p2p_sub": 2, "vset_sub": 2, "p2p_1": ["int"], "p2p_k": ["set"], "vset_1": ["list"], "vset_k": ["list"],
@@ -121,6 +122,8 @@ def tasks(tier):
         for lo, hi in _chunks(75, 4):
             out.append({"kind": "graph", "nmax": 4, "lo": lo, "hi": hi, "coords": coords,
                         "plan": PLAN_FULL if coords == "lattice" or not quick else PLAN_MID})
+    for lo, hi in _chunks(75, 4):
+        out.append({"kind": "graph", "nmax": 4, "lo": lo, "hi": hi, "coords": "tiny", "plan": PLAN_LIGHT})
     # ---- GRAPH(5)
     for coords in (("lattice",) if quick else ("lattice", "generic")):
         for lo, hi in _chunks(1024, 16):
@@ -485,6 +488,14 @@ def _form_obj(form, T):
         return frozenset(T)
     if form == "list_dup":
         return list(T) + [T[0]]
+    if form == "gen":
+        return (t for t in list(T))
+    if form == "npint":
+        import numpy as np
+        return [np.int64(t) for t in T]
+    if form == "nparr":
+        import numpy as np
+        return np.array(list(T), dtype=np.int64)
     raise ValueError(form)
 
 
@@ -737,6 +748,8 @@ def _pattern_customs(mc, plan):
 
 
 def _coords(name, n):
+    if name == "tiny":      # the lattice in a very small unit of length (x 2^-34, exact in binary): no absolute threshold may act on lengths
+        return [tuple(c / 17179869184 for c in p) for p in F.sphere_lattice_points(n)]
     return F.sphere_lattice_points(n) if name == "lattice" else F.moment_curve(n)
 
 
@@ -919,8 +932,8 @@ def finish(tier, rep: Report):
     quick = tier == "quick"
     alph = 1 if quick else 2
     for n in (1, 2, 3, 4):
-        if c.get("graph%d" % n, 0) != 2 * PINNED["graph%d" % n]:
-            fails.append(f"GRAPH({n}): {c.get('graph%d' % n, 0)} members run, expected {2 * PINNED['graph%d' % n]}")
+        if c.get("graph%d" % n, 0) != 3 * PINNED["graph%d" % n]:     # three coordinate alphabets: lattice, generic, tiny
+            fails.append(f"GRAPH({n}): {c.get('graph%d' % n, 0)} members run, expected {3 * PINNED['graph%d' % n]}")
     if c.get("graph5", 0) != alph * 1024:
         fails.append(f"GRAPH(5): {c.get('graph5', 0)} members run, expected {alph * 1024}")
     for coords in ("lattice", "generic"):
